@@ -8,7 +8,7 @@ import warnings
 
 from .. import tlc, valuestream as vs
 from ..core import Ctx, Outcome, Violation
-from ..terms import clear_typelib_caches
+from ..terms import Deadline, clear_typelib_caches, with_deadline
 from ..typeterms import Env
 
 P = lambda n: {"k": "prim", "n": n}          # noqa: E731
@@ -43,7 +43,7 @@ class Ids:
     def id(self, o):
         for i, x in enumerate(self.objs):
             try:
-                if type(x) is type(o) and x == o:
+                if x == o:        # the graph itself identifies annotations with == (typing.Union[A, B] == A | B)
                     return f"t{i}"
             except Exception:
                 pass
@@ -96,7 +96,10 @@ def observe(root, env, variants=()):
     ev = {"nodes": [], "root": ids.id(root), "rootu": ids.id(std_unwrap(root)), "members": {"-": []}, "salias": [],
           "equiv": [], "raised": ""}
     try:
-        seq = list(graph.static_order(root))
+        seq = list(with_deadline(10, graph.static_order, root))
+    except Deadline:
+        ev["raised"] = "NonTermination"
+        return ev
     except RecursionError:
         ev["raised"] = "RecursionError"
         return ev
@@ -136,7 +139,7 @@ def observe(root, env, variants=()):
     body = [(n["t"], n["u"], n["var"], n["cyc"]) for n in ev["nodes"][:-1]]
     for name, alt in variants:
         try:
-            s2 = proj(list(graph.static_order(alt)))
+            s2 = proj(list(with_deadline(10, graph.static_order, alt)))
             same = [(n["t"], n["u"], n["var"], n["cyc"]) for n in s2[:-1]] == body and bool(s2) and s2[-1]["u"] in (ev["nodes"][-1]["u"], ev["rootu"])
         except Exception as e:
             same = False
